@@ -6,6 +6,10 @@ props = [json.loads(l) for l in open(os.path.join(VERIF, 'properties.jsonl'))]
 ids = [p['id'] for p in props]
 
 CHECKS = {
+ 'C03': dict(engine='E1 enum', category='exploration', design_ref='3 C03',
+   technique='exhaustive permutation of flattened query pairs, index spellings and configurations against a reference unflattener, through WSGI GET',
+   text='For fixed nested signature shapes (primitives, object, arrays of objects of 1/2/3/11 members, arrays of objects holding arrays) and every small shape, every permutation of the query pairs (all n! up to 5 pairs quick / 6 thorough; beyond that sorted, reversed, all rotations and all adjacent transpositions), contiguous / sparse / omitted index spellings, three delimiters x strict_arrays x validator, four percent-encoding variants, through the real WsgiApplication. The reference unflattener gives the expected object for that very pair sequence; sparse spellings under strict_arrays must be refused; object_to_simple_dict o simple_dict_to_object must be the identity; every primitive return value must be the exact body with declared out-header fields as HTTP headers.',
+   note='POST form bodies cannot be parsed on this image (no werkzeug): query strings only. vf/ref/httpcodec.py is the reference notation.'),
  'C05': dict(engine='E1 enum', category='exploration', design_ref='3 C05',
    technique='bounded-exhaustive enumeration of the facet lattice x boundary values x positions x six protocol families against a reference validity predicate',
    text='Every single facet and selected facet pairs (ranges, fixed-width bounds, lengths, patterns, enumerations, nullability, occurrence) with values on, just inside and just outside every boundary - all values of the 8-bit (quick) and 16-bit (thorough) integer types +-16, occurrence counts 0..max+2 for min_occurs {0,1,2} x max_occurs {1,2,3,unbounded} - plus lexically ill-formed literals, in the positions argument / nested field / array member / XML attribute, through XmlDocument, Soap11, JsonDocument, YamlDocument, MessagePackDocument and HttpRpc with validator=soft. The reference predicate fixes one expected verdict per logical request, so agreement with it in all six families also settles the cross-protocol clause.',
